@@ -215,6 +215,38 @@ def _native_nonsymmetric(et, backend):
                 vs_dense=float(np.abs(u - ref).max() / np.abs(ref).max()), asymmetry=float(np.abs(Kd - Kd.T).max()))
 
 
+def ob_iterative_honest(backend):
+    """an iterative back end either returns a solution of the stated system or says that it did not converge: a 40-element cantilever beam (stiff, badly scaled: the
+    restarted gmres of scipy stalls on it) -- the returned displacement satisfies the free equations, or Solve raises"""
+    import contextlib, io
+    from EasyFEA import ElemType, Mesher, Models, Simulations
+    from EasyFEA.Geoms import Domain, Line, Point
+    L = 10.0
+    with contextlib.redirect_stdout(io.StringIO()):
+        sect = Domain(Point(-0.25, -0.25), Point(0.25, 0.25)).Mesh_2D([], ElemType.TRI3)
+        beams = [Models.Beam.Isotropic(2, Line(Point(0, 0), Point(L, 0), L / 40), sect, 210e9, 0.3)]
+        mesh = Mesher().Mesh_Beams(beams, elemType=ElemType.SEG2)
+        simu = Simulations.Beam(mesh, Models.Beam.BeamStructure(beams), verbosity=False)
+        simu.solver = backend
+        simu.add_dirichlet(mesh.Nodes_Point(Point(0, 0)), [0, 0, 0], ["x", "y", "rz"])
+        simu.add_neumann(mesh.Nodes_Point(Point(L, 0)), [-1000.0], ["y"])
+        try:
+            u = np.asarray(simu.Solve())
+        except Exception as ex:
+            if "converge" in str(ex).lower():
+                return Verdict(DISCHARGED, backend="native", detail=f"{backend} reports: {str(ex)[:80]}")
+            raise
+        K, _, _, F = simu.Get_K_C_M_F()
+    b = F.toarray().ravel()
+    free = np.setdiff1d(np.arange(u.size), simu.Bc_dofs_Dirichlet())
+    b = b + np.asarray(simu.Bc_vector_Neumann()).ravel() if hasattr(simu, "Bc_vector_Neumann") else b
+    res = float(np.linalg.norm((K @ u - b)[free]) / np.linalg.norm(b[free]))
+    if res > 1e-4:
+        raise Refuted(f"solver '{backend}' on a 40-element cantilever beam: Solve() returns, without any error, a displacement whose free equations have a relative residual of {res:.3e}",
+                      cex=dict(solver=backend, elements=40), signature=f"solve:iterative:{backend}", replay=dict(confirmed=True, rel_residual=res))
+    return Verdict(DISCHARGED, backend="native", detail=f"residual {res:.1e}")
+
+
 def ob_native_nonsymmetric(et, backend):
     r = _native_nonsymmetric(et, backend)
     if r["asymmetry"] < 1e-3:
@@ -1048,6 +1080,9 @@ def build(tier, seed):
                                      ("QUAD8", "thermal", True, True)):
         obs.append(Ob(f"C04.solve.{et}.{physics}{'.dup' if dup else ''}{'.orphan' if orphan else ''}", ob_solve, (et, physics, dup, orphan), "X", (f"{SOL}::Solve_simu", f"{SP}::_Simu.Solve"),
                       bound="star patch, one BC set", clause="constrained dofs == (sum of) prescribed values; free rows of K u = F; finite with orphan nodes", timeout=300))
+    for backend in ("cg", "bicg", "gmres", "lgmres"):
+        obs.append(Ob(f"C04.solve.iterative.{backend}", ob_iterative_honest, (backend,), "X", (f"{SOL}::_Solve_Axb",), bound="one 123-dof beam problem", timeout=300,
+                      clause="the displacement an iterative back end returns satisfies the free equations (1e-4 relative), or Solve raises a non-convergence error"))
     for et, backend in (("TRI3", "scipy"), ("QUAD4", "scipy"), ("TETRA4", "scipy"), ("TRI3", "gmres"), ("TRI3", "bicg")) + ((("TRI6", "scipy"), ("HEXA8", "scipy"), ("TRI3", "lgmres")) if tier == "thorough" else ()):
         obs.append(Ob(f"C04.solve.nonsymmetric.{et}.{backend}", ob_native_nonsymmetric, (et, backend), "X", (f"{SOL}::__Solver_1", f"{SOL}::Solve_simu"),
                       bound="star patch, convection-diffusion weak form, one BC set (function-valued and constant prescribed values)",
